@@ -4,7 +4,7 @@ Layout:  /verif/coq            the Rocq development (coq_makefile project, logic
          /verif/harness/overlay  files laid over /repo with `go build -overlay` (build tag verif)
          /verif/.work          everything generated (binaries, cases, logs); git-ignored
 """
-import json, os, re, shutil, subprocess, sys, time, hashlib
+import glob, json, os, re, shutil, subprocess, sys, time, hashlib
 
 ROOT = os.path.dirname(os.path.dirname(os.path.abspath(__file__)))
 REPO = os.environ.get("VERIF_REPO", "/repo")
@@ -74,14 +74,39 @@ class TieBroken(Exception):
     pass
 
 
-def build_overlay():
-    """write .work/overlay.json mapping every file of harness/overlay onto /repo"""
+def _hook_tag(fname):
+    m = re.match(r'zz_verif_([a-z0-9]+)(_.*)?\.go$', fname)
+    return m.group(1) if m else None
+
+
+def build_overlay(name=None, tags=None):
+    """write .work/overlay_<name>.json mapping files of harness/overlay onto /repo.
+    Hook files are named zz_verif_<tag>[_x].go; a harness <name> sees the hooks tagged `hooks`
+    (shared), its own tag, and any tag listed in harness/overlay/internal/verifh/<name>/TAGS.
+    Other harnesses' main packages are left out, so one broken harness cannot break another."""
     ensure_dirs()
+    want = None
+    if name is not None:
+        want = {"hooks", name}
+        tf = os.path.join(OVERLAY_SRC, "internal", "verifh", name, "TAGS")
+        if os.path.exists(tf):
+            want |= set(open(tf).read().split())
+        if tags:
+            want |= set(tags)
     repl = {}
     for d, _, files in os.walk(OVERLAY_SRC):
         for f in files:
             src = os.path.join(d, f)
             rel = os.path.relpath(src, OVERLAY_SRC)
+            if not f.endswith(".go"):
+                continue
+            parts = rel.split(os.sep)
+            if want is not None:
+                if parts[:2] == ["internal", "verifh"] and len(parts) > 3 and parts[2] not in ("vh", name) and parts[2] not in want:
+                    continue
+                t = _hook_tag(f)
+                if t is not None and t not in want:
+                    continue
             dst = os.path.join(REPO, rel)
             if os.path.exists(dst):
                 raise TieBroken("overlay file %s would shadow an existing file of /repo" % rel)
@@ -99,7 +124,7 @@ def build_overlay():
             with open(out, "w") as f:
                 f.write(s2)
         repl[p] = out
-    path = os.path.join(WORK, "overlay.json")
+    path = os.path.join(WORK, "overlay_%s.json" % (name or "all"))
     with open(path, "w") as f:
         json.dump({"Replace": repl}, f, indent=1, sort_keys=True)
     return path
@@ -107,7 +132,7 @@ def build_overlay():
 
 def go_build(name, pkg=None, race=False):
     """build harness binary /repo/internal/verifh/<name> (overlaid) -> .work/bin/<name>"""
-    ov = build_overlay()
+    ov = build_overlay(name)
     out = os.path.join(WORK, "bin", name + ("-race" if race else ""))
     pkg = pkg or "./internal/verifh/" + name
     cmd = ["go", "build", "-tags", "verif", "-overlay", ov, "-o", out]
@@ -142,17 +167,38 @@ def read_jsonl(path):
 
 # ------------------------------------------------------------------ coq
 
-def coq_make(timeout=3000, clean=False):
-    """full .vo build of /verif/coq (never -vos)"""
-    if not os.path.exists(os.path.join(COQ, "Makefile")) or \
-            os.path.getmtime(os.path.join(COQ, "Makefile")) < os.path.getmtime(os.path.join(COQ, "_CoqProject")):
-        rc, out = sh("coq_makefile -f _CoqProject -o Makefile", cwd=COQ, timeout=120)
+def write_coqproject(only=None, fname="_CoqProject"):
+    """_CoqProject = every .v file under /verif/coq (or only the given directories)"""
+    files = []
+    for d, _, fs in os.walk(COQ):
+        for f in fs:
+            if f.endswith(".v"):
+                rel = os.path.relpath(os.path.join(d, f), COQ)
+                if only is None or rel.split(os.sep)[0] in only or rel in only:
+                    files.append(rel)
+    body = "-Q . NIC\n" + "\n".join(sorted(files)) + "\n"
+    p = os.path.join(COQ, fname)
+    if not os.path.exists(p) or open(p).read() != body:
+        with open(p, "w") as f:
+            f.write(body)
+    return p
+
+
+def coq_make(timeout=3000, clean=False, only=None, tag=None):
+    """full .vo build of /verif/coq (never -vos).  With only=[dirs/files] and tag, a separate
+    makefile (Makefile.<tag>) builds just those files and what they depend on."""
+    proj = "_CoqProject" if tag is None else "_CoqProject." + tag
+    mk = "Makefile" if tag is None else "Makefile." + tag
+    write_coqproject(only, proj)
+    if not os.path.exists(os.path.join(COQ, mk)) or \
+            os.path.getmtime(os.path.join(COQ, mk)) < os.path.getmtime(os.path.join(COQ, proj)):
+        rc, out = sh("coq_makefile -f %s -o %s" % (proj, mk), cwd=COQ, timeout=120)
         if rc != 0:
             return rc, out
     if clean:
-        sh("make clean", cwd=COQ, timeout=300)
-    rc, out = sh("make -j16", cwd=COQ, timeout=timeout)
-    with open(os.path.join(WORK, "log", "coq_make.log"), "w") as f:
+        sh("make -f %s clean" % mk, cwd=COQ, timeout=300)
+    rc, out = sh("make -f %s -j16" % mk, cwd=COQ, timeout=timeout)
+    with open(os.path.join(WORK, "log", "coq_make%s.log" % ("" if tag is None else "_" + tag)), "w") as f:
         f.write(out)
     return rc, out
 
@@ -324,9 +370,13 @@ def parse_z_lists(out, name):
 # ------------------------------------------------------------------ findings / verdicts
 
 def load_known():
+    """KNOWN_FINDINGS.jsonl plus known/*.jsonl (one JSON object per line; # starts a comment line)"""
     out = []
-    if os.path.exists(KNOWN):
-        for line in open(KNOWN):
+    paths = [KNOWN] + sorted(glob.glob(os.path.join(ROOT, "known", "*.jsonl")))
+    for p in paths:
+        if not os.path.exists(p):
+            continue
+        for line in open(p):
             line = line.strip()
             if line and not line.startswith("#"):
                 out.append(json.loads(line))
